@@ -7,6 +7,7 @@ import math
 from harness.common import Run
 from harness.props import c06_api as A
 from harness.props import c06_pipeline as P
+from harness.props import c06_saem as S
 
 META = dict(
     technique="Coq theorems (all atoms incl. NaN/inf, all shapes, all sets of summed axes, all padding amounts, all trees of API "
@@ -19,7 +20,9 @@ META = dict(
                "weight-1 cells; model tensor exactly 0 at weight-0 visits; noise estimates use observed entries only: FULL theorem for BOTH update "
                "rules (scalar and per feature) — the updated variance is unchanged (or the rule fails identically) when y changes under the mask "
                "(any atoms, NaN/inf included) and the model tensor changes where y is not observed, or when visits of weight 0 with any content are "
-               "appended.  (The former scalar rule summed model^2 without "
+               "appended; and AFTER BURN-IN too: the same statement for the rules applied to the statistics averaged by the stochastic-approximation "
+               "blend v*(1-e) + e*new of the memory phase (on y_x_model a blend of two WeightedTensors, which keeps the weights of y), for every number "
+               "of memory iterations and every coefficients (induction over the iterations).  (The former scalar rule summed model^2 without "
                "the mask — finding F3, repaired upstream by 3d244df; the check reports it as a violation with a 2x1x2 witness if it comes back.)",
     level_note="Trusted: Coq kernel (no axioms: every theorem is closed under the global context); the hand-written model is tied to the code "
                "by exact differential execution (not regenerated): torch kernels (broadcasting, sum, masked_fill, index_put, view/expand) are "
@@ -27,7 +30,10 @@ META = dict(
                "exactly representable); the two noise update rules are mirrored by hand and tied on every run: the real statistics + update rule "
                "(wiring of with_noise_std_as_model_parameter, variance recorded at compute_std_from_variance) against noise_var_scalar / "
                "noise_var_diagonal inside Coq on small exact float64 inputs (equal up to the rounding of the final division, 2^-52 relative; "
-               "non-finite entries identical); the positivity check and the square root after the variance are not modelled; "
+               "non-finite entries identical); the memory phase the same way: the real TensorMcmcSaemAlgorithm._maximization_step driven on a real State "
+               "over the real variables of the Gaussian observation model, the stored statistics (weights of y_x_model, its values where observed, "
+               "model_x_model) and the variance after EACH step against Masked/Saem.v inside Coq (burn_in_step_power 1 and iterations "
+               "n_burn_in_iter + 2^j: exact); the positivity check and the square root after the variance are not modelled; "
                "put_data_variables weights tied the same way; model_with_sources mirrored by hand and exercised by the metamorphic "
                "oracles on real fits of every shipped kind.",
     design_ref="DESIGN.md section 4 C06",
@@ -37,6 +43,7 @@ OBLIGATIONS = [
     "C06_wsum_ignores_masked", "C06_wsum_dim_ignores_masked", "C06_sum_dim_ignores_masked", "C06_padding", "C06_padding_plain",
     "C06_observed_closed", "C06_attach", "C06_attach_padding", "C06_counts", "C06_counts_ignore_values",
     "C06_model_zero_on_padding", "C06_model_ignores_masked_times", "C06_noise_observed_only", "C06_noise_ingredients_observed_only", "C06_noise_padding",
+    "C06_noise_observed_only_after_burn_in", "C06_saem_statistics_carry_weights", "C06_noise_saem_no_memory",
 ]
 
 HDR = ("From Coq Require Import List NArith ZArith QArith Bool.\nFrom Leaspy Require Import Base.Atoms Masked.Weighted.\n"
@@ -95,7 +102,13 @@ def main(run: Run):
                 "padded visits (1e-6), one individual alone vs in the batch (1e-5), counts, noise update vs RMS over observed entries. "
                 "(3) noise rules: the F3 witness + random y (1-3 individuals x 1-3 visits x 1-3 features, half-integers in [-3, 3], 15-70% missing, "
                 "{0, 7.5, -2, 1e30, NaN, +-inf} under the mask) and model tensors (half-integers; garbage incl. NaN/inf where y is missing) through "
-                "the real scalar / diagonal update rule and through the Coq model. Non-trivial = the model tensor is not 0 at some missing entry.")
+                "the real scalar / diagonal update rule and through the Coq model. Non-trivial = the model tensor is not 0 at some missing entry. "
+                "(4) memory phase: the same kind of y with a memory-less step followed by 1-4 steps with memory (iterations n_burn_in_iter + 2^j, "
+                "burn_in_step_power 1, one model tensor per step, garbage incl. NaN/inf where y is missing) through the real _maximization_step on a real "
+                "State and through Masked/Saem.v; non-trivial = a model tensor of a memory step is not 0 at some missing entry. (5) real fits of every "
+                "shipped kind x scalar/diagonal noise, n_iter 10 with n_burn_in_iter 3, cohort with partially observed visits: noise_std^2 recomputed "
+                "from scratch (explicit dataset mask) at every iteration; the same fits with {NaN, 1e30} under the mask bit-identical "
+                "(non-trivial = an iteration with memory on a cohort with missing entries on observed visits).")
     run.explanation = ("Theorems are about the executable model in coq/theories/Masked; the model is tied to the current source by running the same "
                        "operation trees through leaspy.utils.weighted_tensor and through the model inside Coq with exact comparison, and the "
                        "pipeline-level statements by the same kind of differential execution (put_data_variables weights, the two noise update rules) and "
@@ -103,11 +116,13 @@ def main(run: Run):
     run.assumptions += ["atoms have no rounding: the differential inputs are kept exactly representable in float64 (noise rules: every operation but the "
                         "final division by the count is exact on the generated inputs; that division is compared up to 2^-52 relative, inside Coq)",
                         "torch kernels are modelled (broadcast, sum, masked_fill, index_put, view, expand), checked by execution only"]
-    run.trusted.append("hand-written model coq/theories/Masked/{Weighted,Pipeline}.v tied by exact differential execution (harness/props/c06_api.py; noise rules and put_data_variables: harness/props/c06_pipeline.py)")
+    run.trusted.append("hand-written model coq/theories/Masked/{Weighted,Pipeline}.v tied by exact differential execution (harness/props/c06_api.py; noise rules and put_data_variables: harness/props/c06_pipeline.py; memory phase Masked/Saem.v: harness/props/c06_saem.py)")
     api_tie(run, 50000 if thorough else 3000)
     # each stage on its own: a tie that no longer runs must not stop the search for a failing input on the real pipeline
     for stage, fn in (("noise-tie", lambda: P.noise_tie(run, 4000 if thorough else 400)),
+                      ("saem-tie", lambda: S.saem_tie(run, 3000 if thorough else 300)),
                       ("put-data-tie", lambda: P.put_data_tie(run, 400 if thorough else 60)),
+                      ("saem-oracle", lambda: S.saem_oracle(run, thorough)),
                       ("pipeline-oracle", lambda: P.run_oracle(run, thorough))):
         try:
             fn()
@@ -144,6 +159,33 @@ def replay(run: Run, path: str):
             print("KNOWN", s, w)
         fails = bool(run._fails or run._known_hit or run._broken)
         print("REPLAY", "FAILS (the code does not compute the model's variance)" if fails else "passes")
+        return 1 if fails else 0
+    if sc in ("saem-tie", "saem-witness"):
+        values, mask, models, its = S._case_tensors(inp)
+        for diagonal in ([inp["rule"] == "diagonal"] if "rule" in inp else [False, True]):
+            res = S.TinyFit(diagonal, values.shape[-1]).run(values, mask, models, its)
+            if res[0] == "S":
+                for it, st in zip(its, res[1]):
+                    print(f"implementation, {'diagonal' if diagonal else 'scalar'} rule, iteration {it}: y_x_model "
+                          f"{'carries weights' if st['weight'] is not None else 'HAS NO WEIGHTS'}, variance = {st['var'].tolist()}")
+            else:
+                print("implementation:", res)
+        S.saem_tie(run, 0, only=[inp])
+        for f in run._fails:
+            print("FAIL", f["signature"], f["what"])
+        fails = bool(run._fails or run._known_hit or run._broken)
+        print("REPLAY", "FAILS (the real _maximization_step does not leave the model's statistics / variance)" if fails else "passes")
+        return 1 if fails else 0
+    if sc in ("saem-noise", "saem-garbage"):
+        cfg = (inp["kind"], inp["noise"], inp["source_dimension"], inp["n_feat"])
+        S.run_saem_config(run, cfg, inp["seed"], [float(inp["fill"])] if sc == "saem-garbage" else [], n_iter=inp["n_iter"],
+                          n_burn_in=inp["n_burn_in_iter"], n_ind=inp["n_ind"])
+        for f in run._fails:
+            print("FAIL", f["signature"], f["what"])
+        for s_, w in run._known_hit.items():
+            print("KNOWN", s_, w)
+        fails = bool(run._fails or run._known_hit)
+        print("REPLAY", "FAILS" if fails else "passes")
         return 1 if fails else 0
     if sc in ("garbage", "padding", "alone", "noise"):
         cfg = (inp["kind"], inp["noise"], inp["source_dimension"], inp["n_feat"])
